@@ -84,8 +84,65 @@ def rc_id_collisions():
                             'concurrently created class'}
 
 
+def creation_races():
+    """A competing request creates the project / user / consumer between the
+    failed lookup and the create of the request under test."""
+    from placement.objects import project as project_obj
+    from placement.objects import user as user_obj
+    from placement.objects import consumer as consumer_obj
+    from placement import exception
+    targets = [(project_obj.Project, 'get_by_external_id', 'project'),
+               (user_obj.User, 'get_by_external_id', 'user'),
+               (consumer_obj.Consumer, 'get_by_uuid', 'consumer')]
+    for cls, meth, what in targets:
+        for how in ('put', 'post'):
+            with Placement() as p:
+                corpus.prepare(p)
+                body = {'allocations': {RP1: {'resources': {'VCPU': 1}}},
+                        'project_id': 'fresh-project', 'user_id': 'fresh-user',
+                        'consumer_generation': None, 'consumer_type': 'INSTANCE'}
+                other = dict(body)
+                orig = cls.__dict__[meth]
+                state = {'done': False}
+
+                def wrapped(klass, ctx, key, _orig=orig.__func__, _state=state):
+                    try:
+                        return _orig(klass, ctx, key)
+                    except exception.NotFound:
+                        if not _state['done']:
+                            _state['done'] = True
+                            r2 = p.req('PUT', '/allocations/%s' % (
+                                C2 if what != 'consumer' else
+                                'dddddddd-dddd-4ddd-8ddd-dddddddddddd'), other,
+                                version=V, **ADMIN)
+                            _state['other'] = r2.status_int
+                        raise
+                setattr(cls, meth, classmethod(wrapped))
+                try:
+                    cu = 'dddddddd-dddd-4ddd-8ddd-dddddddddddd'
+                    if how == 'put':
+                        r = p.req('PUT', '/allocations/%s' % cu, body,
+                                  version=V, **ADMIN)
+                    else:
+                        r = p.req('POST', '/allocations', {cu: body},
+                                  version=V, **ADMIN)
+                finally:
+                    setattr(cls, meth, orig)
+                if _is_5xx(r):
+                    return {'reproduced': True, 'status': r.status_int,
+                            'schedule': 'a second write creating the same %s '
+                                        'commits between the lookup and the '
+                                        'create of a %s /allocations request'
+                                        % (what, how.upper()),
+                            'interposed_status': state.get('other'),
+                            'detail': (r.text or '')[:200]}
+    return {'reproduced': False}
+
+
 def replay(info, model):
     sig = info.get('signature', '')
+    if sig.startswith('ensure_consumer raises'):
+        return creation_races()
     op = info.get('operation', '')
     method, _, route = op.partition(' ')
     if 'ConcurrentUpdateDetected' in sig and route.endswith('/traits'):
@@ -108,6 +165,11 @@ def mutations(body):
             b = dict(body)
             del b[k]
             out.append(b)
+            if isinstance(body[k], dict):
+                b = dict(body)
+                b[k] = dict(body[k])
+                b[k]['bad key'] = 5
+                out.append(b)
             for bad in (None, -1, 2 ** 63, 'x', [], {}, 1.5, '\n', True):
                 b = dict(body)
                 b[k] = bad
@@ -129,17 +191,20 @@ QUERIES = ['', 'limit=0', 'limit=abc', 'resources=VCPU:9223372036854775808',
            'resources=VCPU:1&required=in:', 'same_subtree=_X&resources_Y=VCPU:1',
            'group_policy=x&resources1=VCPU:1&resources2=VCPU:1',
            'root_required=!', 'project_id=', 'consumer_type=?',
-           'resources=VCPU:1&limit=1&limit=2', 'name=in:', 'associated=x']
+           'resources=VCPU:1&limit=1&limit=2', 'name=in:', 'associated=x',
+           'resources=VCPU:1&limit=abc&limit=5']
 
 
 def fuzz(known=(), budget=1500, minors=(39, 12, 1)):
-    import itertools
+    """Round-robin over operations: query-string cases first, then body
+    mutants in slices, so that a small budget still touches every route."""
     from placement import handler as handler_mod
     tried = 0
-    findings = []
+    known_hits = set()
     for minor in minors:
         with Placement() as p:
             corpus.prepare(p)
+            ops_ = []
             for route, targets in handler_mod.ROUTE_DECLARATIONS.items():
                 for method in targets:
                     if route in ('', '/'):
@@ -148,31 +213,39 @@ def fuzz(known=(), budget=1500, minors=(39, 12, 1)):
                         path, body, query = corpus.sample(p, method, route, minor)
                     except Exception:
                         continue
-                    cases = []
-                    if body is not None:
-                        cases += [(path, m, query) for m in mutations(body)[:40]]
-                    if method == 'GET':
-                        cases += [(path, None, q) for q in QUERIES]
-                    cases.append((path + '/x', body, query))
-                    for (pth, b, q) in cases:
-                        if tried >= budget:
-                            return {'reproduced': bool(findings), 'tried': tried,
-                                    'witness': findings[:1], 'all': findings[:5]}
-                        tried += 1
-                        url = pth + ('?' + q if q else '')
-                        r = p.req(method, url, b, version='1.%d' % minor, **ADMIN)
-                        if _is_5xx(r):
-                            desc = '%s %s' % (method, route)
-                            sigs = [k for k in known if k in (r.text or '')]
-                            if any(k(method, route, b, q, r) for k in known):
-                                continue
-                            findings.append({'method': method, 'url': url,
-                                             'body': b, 'microversion': '1.%d' % minor,
-                                             'status': r.status_int,
-                                             'detail': (r.text or '')[:200]})
-                            return {'reproduced': True, 'tried': tried,
-                                    'witness': findings[0]}
-    return {'reproduced': False, 'tried': tried}
+                    qcases = [(path, None, q) for q in QUERIES] \
+                        if method == 'GET' else []
+                    bcases = [(path, m, query) for m in mutations(body)] \
+                        if body is not None else []
+                    bcases.append((path + '/x', body, query))
+                    ops_.append((method, route, qcases, bcases))
+            rounds = [[(m, r, c) for (m, r, qc, bc) in ops_ for c in qc]]
+            for lo in range(0, 60, 6):
+                rounds.append([(m, r, c) for (m, r, qc, bc) in ops_
+                               for c in bc[lo:lo + 6]])
+            for rnd in rounds:
+                for method, route, (pth, b, q) in rnd:
+                    if tried >= budget:
+                        return {'reproduced': False, 'tried': tried,
+                                'known_hits': sorted(known_hits)}
+                    tried += 1
+                    url = pth + ('?' + q if q else '')
+                    r = p.req(method, url, b, version='1.%d' % minor, **ADMIN)
+                    if _is_5xx(r):
+                        hit = [k(method, route, b, q, r) for k in known]
+                        hit = [h for h in hit if h]
+                        if hit:
+                            known_hits.update(hit)
+                            continue
+                        return {'reproduced': True, 'tried': tried,
+                                'known_hits': sorted(known_hits),
+                                'witness': {'method': method, 'url': url,
+                                            'body': b,
+                                            'microversion': '1.%d' % minor,
+                                            'status': r.status_int,
+                                            'detail': (r.text or '')[:200]}}
+    return {'reproduced': False, 'tried': tried,
+            'known_hits': sorted(known_hits)}
 
 
 if __name__ == '__main__':
